@@ -214,6 +214,25 @@ def run(ctx):
         from bionumpy.datatypes import VCFEntry
         return (VCFEntry(["chr1"] * n_, np.array([5 + 3 * i for i in range(n_)], dtype=int), ["rs%d" % i for i in range(n_)], ["A"] * n_, ["C"] * n_, ["."] * n_, ["PASS"] * n_, ["."] * n_),)
 
+    def vcf_gt_entries(r):
+        from bionumpy.datatypes import VCFEntryWithGenotypes
+        from bionumpy.string_array import string_array
+        n_ = r.randint(1, 4)
+        k_ = r.randint(1, 3)
+        if r.random() < 0.5:
+            gt = string_array([[r.choice(["0|1", "1|1", "0/0", "./."]) for _ in range(k_)] for _ in range(n_)])
+        else:
+            gt = ["\t".join(r.choice(["0|1", "1|1", "0/0"]) for _ in range(k_)) for _ in range(n_)]        # not a variants x samples matrix: the writer may refuse it
+        return (VCFEntryWithGenotypes(["chr1"] * n_, np.array([5 + 3 * i for i in range(n_)], dtype=int), ["rs%d" % i for i in range(n_)], ["A"] * n_, ["C"] * n_, ["."] * n_, ["PASS"] * n_, ["X=%d" % i for i in range(n_)], gt),)
+
+    def written_with(t, buffer_name):
+        pth = ctx.path("c20wb.vcf")
+        with bnp.open(pth, "w", buffer_type=tables.get_buffer_type(buffer_name)) as f:
+            f.write(t)
+        return open(pth, "rb").read()
+
+    from bionumpy.sequence.translate import Translate, DNAToProtein
+
     pwm = PWM(np.log(np.array([[0.5, 0.25], [0.25, 0.25], [0.125, 0.25], [0.125, 0.25]])), "ACGT")
 
     # registry: name -> (argument factory, function)
@@ -247,6 +266,10 @@ def run(ctx):
         "get_reverse_complement(ascii)": (lambda r: (enc(dna_rows(r, "ACGTNacgtn")),), lambda a: get_reverse_complement(a)),
         "get_reverse_complement(DNA)": (lambda r: (enc(dna_rows(r), ae.ACGTEncoding),), lambda a: get_reverse_complement(a)),
         "translate_dna_to_protein": (lambda r: (enc(dna_rows(r)),), lambda a: translate_dna_to_protein(a)),
+        "translate_dna_to_protein(sequences held in the codon table's alphabet)": (lambda r: (enc(dna_rows(r, "TCAG"), DNAToProtein.from_encoding),), lambda a: translate_dna_to_protein(a)),
+        "Translate().windowed(sequences held in the codon table's alphabet)": (lambda r: (enc(dna_rows(r, "TCAG") + ["ATGGCCAAGTAA"], DNAToProtein.from_encoding),), lambda a: Translate().windowed(a)),
+        "translate_dna_to_protein(sequences held in the DNA alphabet)": (lambda r: (enc(dna_rows(r), ae.ACGTEncoding),), lambda a: translate_dna_to_protein(a)),
+        "translate_dna_to_protein(table)": (lambda r: (lambda rows: (SequenceEntry(["s%d" % i for i in range(len(rows))], rows),))(dna_rows(r)), lambda t: translate_dna_to_protein(t)),
         "get_kmers": (lambda r: (enc(dna_rows(r) + ["ACGTAC"], ae.ACGTEncoding),), lambda a: bnp.get_kmers(a, 3)),
         "get_kmers(generic)": (lambda r: (enc(dna_rows(r, "ACGTN") + ["ACGTNA"], ae.ACGTnEncoding),), lambda a: bnp.get_kmers(a, 2)),
         "get_minimizers": (lambda r: (enc(dna_rows(r) + ["ACGTACG"], ae.ACGTEncoding),), lambda a: bnp.get_minimizers(a, 2, 4)),
@@ -291,6 +314,8 @@ def run(ctx):
         "write(eager VCF table)": (eager_vcf, lambda t: written_bytes(t, ".vcf")),
         "write(eager BED table)": (lambda r: (sorted_iv(r),), lambda t: written_bytes(t, ".bed")),
         "write(in-memory VCF entries)": (vcf_entries, lambda t: written_bytes(t, ".vcf")),
+        "write(in-memory VCF entries with genotypes, VCFBuffer2)": (vcf_gt_entries, lambda t: written_with(t, "VCFBuffer2")),
+        "write(in-memory VCF entries with genotypes, VCFMatrixBuffer)": (vcf_gt_entries, lambda t: written_with(t, "VCFMatrixBuffer")),
         "Genome.from_dict(sizes).with_ignored_added": (lambda r: ({"chr1": 50, "chr2": 30, "chrM": 7},), lambda sizes: sorted(bnp.Genome.from_dict(sizes).with_ignored_added([r_name for r_name in ("chrM",)]).get_genome_context().chrom_sizes.items())),
         "Genome.with_ignored_added(genome reused)": (lambda r: (bnp.Genome.from_dict({"chr1": 50, "chr2": 30, "chrM": 7, "chrX": 5}),), lambda g: [sorted(g.with_ignored_added(["chrM"]).get_genome_context().chrom_sizes.items()), sorted(g.with_ignored_added(["chrX"]).get_genome_context().chrom_sizes.items()), sorted(g.get_genome_context().chrom_sizes.items())]),
         "table.sort_by": (lambda r: (sorted_iv(r),), lambda a: a.sort_by("stop")),
